@@ -1,10 +1,11 @@
-import EpModel.Driver.Util
-/- `enc.*` and `spec.enc.*` operations (stub; filled in by the owner of this family). -/
+import EpModel.Driver.EncLink
+import EpModel.Driver.EncNet
+/- `enc.*` / `spec.enc.*` operations: header codecs (C08). Split over two modules. -/
 namespace EpModel.Driver.Enc
-open EpModel EpModel.Driver
 
 def run (op : String) (args : List String) : Option String :=
-  match op, args with
-  | _, _ => none
+  match EncLink.run op args with
+  | some r => some r
+  | none => EncNet.run op args
 
 end EpModel.Driver.Enc
